@@ -86,7 +86,7 @@ class RefResult:
 
 class Interp:
     def __init__(self, prog, argv, W, checked=True, max_nodes=400_000,
-                 stack_bytes=None, max_total_nodes=2_000_000):
+                 stack_bytes=None, max_total_nodes=2_000_000, uninit_zero=False):
         self.prog = prog
         self.argv = list(argv)
         self.W = W
@@ -97,6 +97,8 @@ class Interp:
         self.typer = Typer(prog)
         self.max_nodes = max_nodes
         self.max_total_nodes = max_total_nodes
+        # calibration only: fresh memory reads as zero (sat.hid and one upstream test rely on it)
+        self.uninit_zero = uninit_zero
         self.total_nodes = 0
         self.stack_bytes = stack_bytes
         self.max_signed = self.signbit - 1
@@ -452,7 +454,8 @@ class Interp:
             self.check_length(el, n)
             if n == 0:
                 self.stats['dyn_len0'] += 1
-            frame[-1][name] = Arr(el, [0 if is_global else UNDEF] * n)
+            zero = b'' if el == 'string' else 0
+            frame[-1][name] = Arr(el, [zero if (is_global or (self.uninit_zero and el != 'string')) else UNDEF] * n)
             types[-1][name] = (arr(el, False), True)
 
     def check_length(self, el, n):
